@@ -106,6 +106,20 @@ SCALARS = [
     ("treeLeafPoolDivisor", "details/TreeNode.h", r"static const size_t leafMemPoolCount = maxCapacity / \((\d+) \* capacityStep\) \+ 1;", "Node: leafMemPoolCount = maxCapacity / (this * capacityStep) + 1"),
     ("treeSplitDivisor", "details/TreeNode.h", r"size_t splitItemIndex = itemCount / (\d+);", "GetSplitItemIndex: itemCount / this"),
     ("treeSplitModulus", "details/TreeNode.h", r"if \(itemCount % (\d+) == 0 && splitItemIndex > newItemIndex\)", "GetSplitItemIndex: one less when itemCount % this == 0 and the new item goes left"),
+    # ---- C07: DataIndexes.h (MultiHash raw segments), DataTable.h (index selection of Select)
+    ("dtLogInitialSegmentSize", "DataIndexes.h", r"static const size_t logInitialSegmentSize = (\d+);", "MultiHash: the raws of one key are kept sorted per segment of SegmentedArraySettings<sqrt, this>"),
+    ("dtSegMaskShift", "DataIndexes.h", r"\(rawCount & \(\((\d+) << logInitialSegmentSize\) - 1\)\) == 0", "MultiHash::pvAdd: boundary pre-test rawCount & ((this << logInitialSegmentSize) - 1)"),
+    ("dtSelectEqualityMaxCount", "DataTable.h", r"static const size_t selectEqualityMaxCount = (\d+);", "DataTraits: Select peels equalities off into the filter while there are more than this"),
+    # ---- C08: details/ArrayBucket.h (value array of HashMultiMap: state byte, growth pool -> heap, shrink rule), HashMultiMap.h
+    ("abMaxFastLimit", "details/ArrayBucket.h", r"MOMO_STATIC_ASSERT\(0 < maxFastCount && maxFastCount < (\d+)\);", "ArrayBucket: maxFastCount < this (count nibble of the state byte)"),
+    ("abStateShift", "details/ArrayBucket.h", r"return static_cast<uint8_t>\(\(memPoolIndex << (\d+)\) \| count\);", "pvMakeState: (memPoolIndex << this) | count"),
+    ("abPoolShift", "details/ArrayBucket.h", r"return size_t\{pvGetState\(\)\} >> (\d+);", "pvGetMemPoolIndex: state >> this"),
+    ("abCountMask", "details/ArrayBucket.h", r"return size_t\{pvGetState\(\)\} & (\d+);", "pvGetFastCount: state & this"),
+    ("abHeapCapMul", "details/ArrayBucket.h", r"Array array = Array::CreateCap\(maxFastCount \* (\d+),", "AddBackCrt: first heap array has capacity maxFastCount * this"),
+    ("abShrinkMinCount", "details/ArrayBucket.h", r"if \((\d+) < count && count <= array\.GetCapacity\(\) / \d+\)", "RemoveBack: shrink only when this < count"),
+    ("abShrinkDiv", "details/ArrayBucket.h", r"if \(\d+ < count && count <= array\.GetCapacity\(\) / (\d+)\)", "RemoveBack: shrink when count <= capacity / this"),
+    ("abShrinkMul", "details/ArrayBucket.h", r"array\.Shrink\(count \* (\d+)\);", "RemoveBack: new capacity = count * this"),
+    ("mmDefaultMaxFast", "HashMultiMap.h", r"static const size_t valueArrayMaxFastCount = (\d+);", "HashMultiMapSettings: default valueArrayMaxFastCount"),
 ]
 
 TABLES = [
@@ -142,6 +156,33 @@ SHAPES = [
     ("count", "tableExplicitMemoryOrders", "DataTable.h", r"memory_order", 0, "no explicit (weaker) memory order in DataTable.h"),
     ("count", "rowFreeRawsUses", "DataRow.h", r"\bmFreeRaws\b", 9, "every use of DataRow::mFreeRaws (ctor/move/swap/dtor) is accounted for"),
     ("count", "tableFreeRawsUses", "DataTable.h", r"GetFreeRaws\(\)|\bfreeRaws\b", 7, "every use of Crew::freeRaws is accounted for"),
+    # ---- C20: propagation traits of stdish::unsynchronized_pool_allocator (the container-level model branches on them)
+    ("count", "paPoccaFalse", "stdish/pool_allocator.h", r"typedef std::false_type propagate_on_container_copy_assignment;", 1, "pool allocator: propagate_on_container_copy_assignment is false_type (copy assignment keeps the target's pool)"),
+    ("count", "paPocmaTrue", "stdish/pool_allocator.h", r"typedef std::true_type propagate_on_container_move_assignment;", 1, "pool allocator: propagate_on_container_move_assignment is true_type (move assignment carries the pool)"),
+    ("count", "paPocsTrue", "stdish/pool_allocator.h", r"typedef std::true_type propagate_on_container_swap;", 1, "pool allocator: propagate_on_container_swap is true_type (swap exchanges the pools)"),
+    # ---- C15: version table - the VersionKeeper checks and every version-increment / version-check site the model `Ver` mirrors
+    ("body", "verKeeperCheckShape", "IteratorUtility.h", r"void Check\(\) const",
+     "MOMO_CHECK(mContainerVersion != nullptr && *mContainerVersion == mVersion);",
+     "VersionKeeper<Settings,true>::Check(): one MOMO_CHECK of pointer and snapshot"),
+    ("body", "verKeeperCheckAtShape", "IteratorUtility.h", r"void Check\(const size_t\* version, bool allowEmpty = false\) const",
+     "(void)version; MOMO_ASSERT(version != nullptr); if (allowEmpty && mContainerVersion == nullptr) return; "
+     "MOMO_CHECK(mContainerVersion == version && mVersion == *version);",
+     "VersionKeeper<Settings,true>::Check(version, allowEmpty)"),
+    ("count", "verCheckThrowsInvalidArgument", "UserSettings.h", r"do \{ if \(!\(expr\)\) throw std::invalid_argument\(#expr\); \} while \(false\)", 1, "MOMO_CHECK_EXCEPTION throws std::invalid_argument"),
+    ("count", "verCrewIncSites", "SetUtility.h", r"\+\+mData->version;", 1, "SetCrew::IncVersion is one size_t increment"),
+    ("count", "verIncSitesHashSet", "HashSet.h", r"mCrew\.IncVersion\(\)", 4, "HashSet: IncVersion in Clear, Reserve, pvAddNogrow, pvRemove"),
+    ("count", "verIncSitesTreeSet", "TreeSet.h", r"IncVersion\(\)", 8, "TreeSet: IncVersion in Clear, Remove(range), MergeTo (2 paths x 2 objects), pvAdd, pvRemove"),
+    ("count", "verIncSitesHashMap", "HashMap.h", r"IncVersion\(\)", 0, "HashMap forwards to its nested HashSet"),
+    ("count", "verIncSitesTreeMap", "TreeMap.h", r"IncVersion\(\)", 0, "TreeMap forwards to its nested TreeSet"),
+    ("count", "verValueIncSites", "HashMultiMap.h", r"\+\+mValueCrew\.GetValueVersion\(\)", 4, "HashMultiMap: value version in Clear, Remove(iter), pvAddValue, pvRemoveValues"),
+    ("count", "verChangeIncSites", "DataTable.h", r"\+\+mCrew\.GetChangeVersion\(\)", 6, "DataTable: change version in Clear, TryAdd, TryUpdate(row), pvExtractRaw, pvTryUpdate, pvFilterRaws"),
+    ("count", "verRemoveIncSites", "DataTable.h", r"\+\+mCrew\.GetRemoveVersion\(\)", 4, "DataTable: remove version in Clear, TryUpdate(row), pvExtractRaw, pvFilterRaws"),
+    ("count", "verHashSetPosChecks", "HashSet.h", r"ConstPositionProxy::Check\(", 4, "HashSet: position checks in ResetKey, CheckIterator, pvAdd, pvRemove"),
+    ("count", "verTreeSetIterChecks", "TreeSet.h", r"ConstIteratorProxy::Check\(", 6, "TreeSet: iterator checks in Remove(range) x2, ResetKey, CheckIterator, pvAdd, pvRemove"),
+    ("count", "verMultiMapIterChecks", "HashMultiMap.h", r"ConstIteratorProxy::Check\(", 3, "HashMultiMap: value-iterator checks in Remove, MakeMutableIterator, CheckIterator"),
+    ("count", "verTableRefChecks", "DataTable.h", r"rowRef\.GetRaw\(\);", 7, "DataTable: checked row references in Remove/Extract(ref) via GetNumber, pvTryUpdate, MakeMutableReference, pvAssign x2, pvRemove x2"),
+    ("count", "verSelectionRefChecks", "DataSelection.h", r"rowRef\.GetRaw\(\);", 3, "DataSelection: checked row references in Set, Add, Insert"),
+    ("count", "verSelectionReadChecks", "DataSelection.h", r"if \(!mRaws\.IsEmpty\(\)\)\s*VersionKeeper::Check\(\);", 3, "DataSelection: pvSort, pvGroup, pvBinarySearch check the selection's version"),
 ]
 
 
